@@ -15,10 +15,14 @@ Statements about the model `Pyunicorn.Geo` (`Model/Geo.lean`) of
 
 The model is polymorphic in the number type.  Theorems marked *structural* hold
 for **every** number type (hence also for the float32 arithmetic the compiled
-kernel uses); the geometric theorems are stated over `ℝ`.  What is **not**
-proved: the float32 rounding-error bounds of the property statement
-(2⁻¹⁰ rad absolute, ≈2⁻²⁰ relative) — `Float` is opaque to the kernel; that
-part is sampled by `harness/c12.py` (partial).
+kernel uses); the geometric theorems are stated over `ℝ`.  The float32 accuracy
+clauses are theorems under the standard model of floating point arithmetic
+(`StdRound`): Euclidean relative error `2⁻²⁰` (round 2), angular absolute error
+`arccos (1 - η) + 2 ε` with `η ≈ 5u + 5.66 δ` from the unit roundoff `u`, the table
+error `δ` and the radian-conversion error `ε` (round 3: `angular_entry_error_rounded`;
+`3·2⁻¹¹` for the tables numpy produces, `2⁻¹⁰` for correctly rounded tables).  `δ`, `ε`
+are measured by `harness/c12.py` on every run, and the property's `2⁻¹⁰` / relative
+`2⁻¹⁷` bounds are sampled (partial).
 
 The model is tied to the source by `harness/c12.py`: exact correspondence over
 `Rat` at the kernel boundary (dyadic inputs), exact correspondence for lookups
